@@ -342,4 +342,91 @@ Section Law.
     destruct (print_tags quote m) as [|c0 r0] eqn:Ej; [congruence|]. rewrite Hsp.
     rewrite flat_length_even. exact (fld_items_flat m (render quote m) (render_frendered m Hall Hprov)).
   Qed.
+
+  (* ---------- the destination of a pipe: own fields ++ provenance fields, and the text emitted for them ---------- *)
+  Lemma flat_app (a b : list (bytes * bytes)) : flat (a ++ b) = flat a ++ flat b.
+  Proof. induction a as [|[k v] a IH]; [reflexivity|]. cbn [app flat]. rewrite IH. reflexivity. Qed.
+  Lemma enc_fields_app a b : enc_fields (a ++ b) = enc_fields a ++ enc_fields b.
+  Proof. unfold enc_fields. rewrite map_app, concat_app. reflexivity. Qed.
+
+  Lemma prov_le255 m : forallb prov_pair_ok m = true -> Forall pair_le255 m.
+  Proof.
+    induction m as [|[k v] tl IH]; intros H; [constructor|]. cbn [forallb] in H. apply andb_true_iff in H as [H Htl].
+    unfold prov_pair_ok in H. cbn [fst snd] in H. apply andb_true_iff in H as [H H3]. apply andb_true_iff in H as [_ H2].
+    constructor; [split; cbn [fst snd]; apply Nat.leb_le; assumption|exact (IH Htl)].
+  Qed.
+
+  Theorem pipe_destination m lo : keys_sorted m = true -> tag_safe m = true -> forallb prov_pair_ok m = true ->
+    Forall pair_le255 lo ->
+    let own := enc_fields (flat lo) in
+    pipe_fields quote unquote own m = enc_fields (flat (lo ++ m)) /\
+    exists t, as_kv quote (pipe_fields quote unquote own m) = Ok t /\ fields_of_kv unquote t = Ok (enc_fields (flat (lo ++ m))).
+  Proof.
+    intros Hs Hsafe Hprov Hlo own.
+    assert (E : pipe_fields quote unquote own m = enc_fields (flat (lo ++ m))).
+    { unfold pipe_fields, field_parse. rewrite (provenance m Hs Hsafe Hprov). unfold own.
+      rewrite flat_app, enc_fields_app. reflexivity. }
+    split; [exact E|]. rewrite E.
+    assert (Hall : Forall pair_le255 (lo ++ m)) by (apply Forall_app; split; [exact Hlo|exact (prov_le255 m Hprov)]).
+    destruct (fields_roundtrip_pairs (lo ++ m) Hall) as (H1 & H2). eexists. split; [exact H1|exact H2].
+  Qed.
+
+  (* ---------- the {vars} element of the formatter: tag line, ',' and the field text ---------- *)
+  Lemma join_pairs_app (a b : list (bytes * bytes)) : a <> [] -> b <> [] ->
+    join_pairs (a ++ b) = join_pairs a ++ COMMA :: join_pairs b.
+  Proof.
+    induction a as [|[k r] a IH]; intros Ha Hb; [congruence|].
+    destruct a as [|kv2 a'].
+    - cbn [app]. destruct b as [|kv b']; [congruence|]. cbn [join_pairs]. rewrite <- app_assoc. reflexivity.
+    - change (((k, r) :: kv2 :: a') ++ b) with ((k, r) :: (kv2 :: a') ++ b).
+      rewrite (join_cons k r ((kv2 :: a') ++ b)), (join_cons k r (kv2 :: a')).
+      pose proof (IH ltac:(discriminate) Hb) as E. unfold sepjoin. cbn [app] in E |- *. rewrite E.
+      rewrite <- app_assoc. cbn [app]. rewrite <- app_assoc. reflexivity.
+  Qed.
+
+  Theorem vars_roundtrip m lo : keys_sorted m = true -> tag_safe m = true -> forallb prov_pair_ok m = true ->
+    m <> [] -> Forall pair_le255 lo ->
+    exists t, vars_text quote (line quote m) (enc_fields (flat lo)) = Ok t /\
+              fields_of_kv unquote t = Ok (enc_fields (flat (m ++ lo))).
+  Proof.
+    intros Hs Hsafe Hprov Hne Hlo.
+    destruct lo as [|[kf vf] lo0] eqn:Elo.
+    { exists (line quote m). split; [reflexivity|]. rewrite app_nil_r. exact (provenance m Hs Hsafe Hprov). }
+    rewrite <- Elo in *. assert (Hlone : lo <> []) by (rewrite Elo; discriminate).
+    assert (Hfne : enc_fields (flat lo) <> []) by (rewrite Elo; discriminate).
+    unfold vars_text. destruct (enc_fields (flat lo)) as [|c0 f0] eqn:Ef; [congruence|]. rewrite <- Ef.
+    rewrite (as_kv_pairs lo Hlo). eexists. split; [reflexivity|].
+    rewrite (line_print quote m Hs). change (print_tags quote m) with (join_pairs (render quote m)).
+    unfold tag_safe in Hsafe. apply andb_true_iff in Hsafe as [Hall Hedge].
+    destruct (render_pieces quote unquote QS m Hall) as (Hrp1 & _).
+    destruct (frender_pieces true lo Hlo) as (Hrp2 & Hr2).
+    destruct m as [|[k1 v1] tlm] eqn:Em; [congruence|]. rewrite <- Em in *.
+    assert (Hn1 : name_ok k1 = true).
+    { rewrite Em in Hall. cbn [tag_pairs_safe] in Hall. apply andb_true_iff in Hall as [Hall _].
+      apply andb_true_iff in Hall as [Hall _]. exact Hall. }
+    destruct (name_facts k1 Hn1) as (_ & Ht1 & _).
+    rewrite Em in Hedge. cbn [tag_edges_ok] in Hedge. apply negb_true_iff in Hedge.
+    destruct (exists_last (l := lo) Hlone) as (lo' & [kl vl] & Elo2).
+    assert (Hvl : length vl <= 255).
+    { rewrite Elo2 in Hlo. apply Forall_app in Hlo as [_ Hlo]. inversion Hlo as [|? ? [_ H] _]; subst. exact H. }
+    destruct (fld_item_ok false true vl Hvl) as (_ & _ & _ & E3). destruct (E3 eq_refl) as (Hlsp & Hlrbr).
+    destruct (frender_last lo' true kl vl) as (rl' & kr & Erl). rewrite <- Elo2 in Erl.
+    assert (Rne : render quote m <> []) by (rewrite Em; discriminate).
+    assert (Fne : frender true lo <> []) by (rewrite Elo; discriminate).
+    rewrite <- (join_pairs_app (render quote m) (frender true lo) Rne Fne).
+    set (rl := render quote m ++ frender true lo).
+    destruct (pieces_join rl k1 (tag_val quote (is_nil tlm) v1) (render quote tlm ++ frender true lo)
+                (render quote m ++ rl') (kr, fld_item quote false true vl)) as (Hrc & Hsplit & Hjne).
+    - unfold rl. rewrite Em. reflexivity.
+    - unfold rl. rewrite Erl, app_assoc. reflexivity.
+    - unfold rl. apply Forall_app. split; assumption.
+    - apply (trimmed_ends _ Ht1).
+    - exact Hedge.
+    - exact Hlsp.
+    - exact Hlrbr.
+    - unfold fields_of_kv, fields_of_kv_v. fold (fld_items unquote). rewrite Hrc.
+      destruct (join_pairs rl) as [|c1 r1] eqn:Ej; [congruence|]. rewrite Hsplit.
+      rewrite flat_length_even. apply (fld_items_flat (m ++ lo) rl).
+      unfold rl. apply Forall2_app; [exact (render_frendered m Hall Hprov)|exact Hr2].
+  Qed.
 End Law.
